@@ -18,6 +18,9 @@ type Scenario struct {
 	Resume *Resume `json:"resume,omitempty"`
 	// what to do after the connection is up
 	Probe bool `json:"probe,omitempty"`
+	// Companions: that many other client objects of the same process run their own key exchange (each with its own
+	// reference server) at the same time as the one under test
+	Companions int `json:"companions,omitempty"`
 	// PreludeKey: before the exchange under test, another client object of the same process - configured with this
 	// other RSA key - completes a key exchange with a server that holds it
 	PreludeKey *refsrv.RSAKeyJSON `json:"prelude_key,omitempty"`
